@@ -183,6 +183,15 @@ def triples_for(spec, rng, exhaustive, limit=None):
     n = len(spec["nodes"])
     roots = [i for i in range(n) if g.in_degree(i) == 0 and not spec["nodes"][i]["args"] and not spec["nodes"][i]["kwargs"]]
     out = []
+    if n > 12:
+        # wide shapes: the triples are drawn directly (selections that name MANY nodes - more than 16 ids - among them)
+        for _ in range(limit or 30):
+            R = None if rng.random() < 0.4 or not roots else rng.sample(roots, rng.randint(1, len(roots)))
+            part = sorted(S.closure(spec, R, None, None))
+            X = None if rng.random() < 0.4 or not part else rng.sample(part, rng.randint(1, min(len(part), rng.choice([2, 20]))))
+            T = None if rng.random() < 0.4 else rng.sample(range(n), rng.randint(0, min(n, rng.choice([3, 25]))))
+            out.append((R, X, T))
+        return out
     # an empty list is a legal (empty) subset and is different from "not given" (None)
     r_opts = [None, []] + [list(c) for k in range(1, len(roots) + 1) for c in itertools.combinations(roots, k)]
     for R in r_opts:
@@ -197,7 +206,7 @@ def triples_for(spec, rng, exhaustive, limit=None):
     return out
 
 
-def run_shape(col, pid, rng, n, edges, exhaustive, limit, with_setup=False, with_tags=True):
+def run_shape(col, pid, rng, n, edges, exhaustive, limit, with_setup=False, with_tags=True, bulk_tag=0):
     tags = {}
     fn_names = {i: "f%d" % i for i in range(n)}
     if n >= 3 and rng.random() < 0.35:
@@ -230,6 +239,11 @@ def run_shape(col, pid, rng, n, edges, exhaustive, limit, with_setup=False, with
     g0 = nx.DiGraph()
     g0.add_nodes_from(range(n))
     g0.add_edges_from(edges)
+    if bulk_tag:
+        # one tag shared by MANY nodes (more than 16): a selection naming it names them all
+        for i in sorted(unique)[:bulk_tag]:
+            tags[i] = "bulk"
+        col.counters["c12_shapes_with_a_tag_shared_by_more_than_16_nodes"] += 1
     setup = set()
     if with_setup:
         # a setup node may only depend on setup nodes: choose an ancestor-closed set
@@ -354,6 +368,14 @@ def job_sel(j):
         edges = [(a, b) for b in range(n) for a in range(b) if rng.random() < 0.3]
         run_shape(col, pid, rng, n, edges, False, j.get("triples_per_shape", 30), with_setup=(rng.random() < 0.4))
         col.counters["random_shapes"] += 1
+    for _ in range(j.get("wide_shapes", 0)):
+        # m independent branches src_i -> use_i (plus a few cross edges): 36..52 nodes, a tag shared by more than 16 of them
+        m = rng.randint(18, 26)
+        n = 2 * m
+        edges = [(i, m + i) for i in range(m)] + [(rng.randrange(m), m + rng.randrange(m)) for _q in range(rng.randint(0, 4))]
+        edges = sorted(set(edges))
+        run_shape(col, pid, rng, n, edges, False, j.get("triples_per_shape", 30), bulk_tag=rng.randint(17, m))
+        col.counters["wide_shapes"] += 1
     return col.result()
 
 
